@@ -429,6 +429,72 @@ fn glide_session(sc: &Value, tr: &mut Tracer) {
 	tr.ev(json!({"a": "end"}));
 }
 
+/// PickUpOrder.tla, edge mixer -> listeners: the audio thread is stopped before the n-th drain of a ring of new resources
+/// within one callback; the gameplay thread adds a listener, a spatial track bound to it and a sound on that track; the
+/// callback goes on.  Whenever the sound runs, its track must find the listener (otherwise the callback is silent).
+///   {"kind":"pickup","n":N}
+fn pickup_session(sc: &Value, tr: &mut Tracer) {
+	use kira::{backend::Renderer, AudioManager, AudioManagerSettings};
+	let n = sc["n"].as_u64().unwrap();
+	tr.reset(json!({"kind": "pickup", "cls": "pickup", "n": n}));
+	let mut manager = AudioManager::<VBackend>::new(AudioManagerSettings {
+		capacities: Capacities::default(),
+		main_track_builder: MainTrackBuilder::new(),
+		internal_buffer_size: NF,
+		backend_settings: VSettings { sample_rate: RATE },
+	})
+	.unwrap();
+	let mut renderer = manager.backend_mut().renderer.take().unwrap();
+	let _ = run_callback(&mut renderer, NF, 2);
+	let (tx, rx) = std::sync::mpsc::channel::<Renderer>();
+	tx.send(renderer).unwrap();
+	let aw: Worker<Renderer> = Worker::spawn("audio", move || rx.recv().unwrap());
+	let job = |r: &mut Renderer| {
+		let res = run_callback(r, NF, 2);
+		json!({"loud": res.out.iter().any(|x| *x != 0.0), "panicked": res.panicked.is_some()})
+	};
+	aw.start(&["sto.refill"], job);
+	let mut st = aw.wait();
+	let mut passed = 1;
+	while passed < n && matches!(st, Status::Parked(_)) {
+		st = aw.resume();
+		passed += 1;
+	}
+	let parked = matches!(st, Status::Parked(_));
+	let listener = manager.add_listener(Vec3::ZERO, Quat::IDENTITY).unwrap();
+	let builder = SpatialTrackBuilder::new().attenuation_function(None).spatialization_strength(0.0);
+	let mut track = manager.add_spatial_sub_track(listener.id(), Vec3::new(1.0, 0.0, 0.0), builder).unwrap();
+	let stats: Arc<ProbeStats> = Default::default();
+	track.play(ProbeData { frame: Frame::from_mono(0.5), stats: stats.clone() }).unwrap();
+	aw.ctl.set_sites(&[]);
+	let (mut ran, mut loud, mut p) = (vec![], vec![], false);
+	let mut runs = 0;
+	let mut look = |st: Status| {
+		let r = stats.runs.load(Ordering::SeqCst);
+		ran.push(r > runs);
+		runs = r;
+		match st {
+			Status::Done(v) => {
+				loud.push(v["loud"].as_bool().unwrap_or(false));
+				p |= v["panicked"].as_bool().unwrap_or(false);
+			}
+			_ => {
+				loud.push(false);
+				p = true;
+			}
+		}
+	};
+	look(aw.finish());
+	for _ in 0..3 {
+		look(aw.call(job));
+	}
+	tr.ev(json!({"a": "pk", "parked": parked, "ran": ran, "loud": loud, "p": p}));
+	tr.ev(json!({"a": "end"}));
+	drop(track);
+	drop(listener);
+	aw.shutdown();
+}
+
 fn geo_session(sc: &Value, tr: &mut Tracer) {
 	let q = sc["q"].as_i64().unwrap_or(1);
 	let (min, max) = (sc["min"].as_f64().unwrap_or(1.0) as f32, sc["max"].as_f64().unwrap_or(4.0) as f32);
@@ -501,6 +567,7 @@ fn main() {
 	let inp = arg(&args, "--in").expect("--in");
 	let outp = arg(&args, "--out").expect("--out");
 	quiet_panics();
+	install_hook();
 	let mut tr = Tracer::create(&outp);
 	for sc in read_scenarios(&inp) {
 		match sc["kind"].as_str().unwrap_or("") {
@@ -508,6 +575,7 @@ fn main() {
 			"geo" => geo_session(&sc, &mut tr),
 			"vmap" => vmap_session(&sc, &mut tr),
 			"glide" => glide_session(&sc, &mut tr),
+			"pickup" => pickup_session(&sc, &mut tr),
 			other => panic!("unknown scenario kind {other}"),
 		}
 	}
